@@ -70,6 +70,13 @@ void ares_cancel(ares_channel_t *channel)
        * made by the callback may fail to send and close that connection, which
        * requeues everything still waiting on it: this query would be sent
        * again and could complete (callback, free) a second time. */
+      /* If this was the probe of a failed server, that server is no longer
+       * being probed (end_query() does the same for queries that end there);
+       * otherwise it would never be probed again. */
+      if (query->conn != NULL) {
+        query->conn->server->probe_pending = ARES_FALSE;
+      }
+
       ares_query_remove_from_conn(query);
 
       /* NOTE: its possible this may enqueue new queries */
